@@ -115,7 +115,7 @@ func (q *ShardQueue) Close() error {
 	}
 	// wait for all tasks finished
 	for atomic.LoadInt32(&q.state) != closed {
-		if atomic.LoadInt32(&q.adding) == 0 && atomic.LoadInt32(&q.trigger) == 0 {
+		if atomic.LoadInt32(&q.adding) == 0 && atomic.LoadInt32(&q.trigger) == 0 && atomic.LoadInt32(&q.runNum) == 0 {
 			atomic.StoreInt32(&q.state, closed)
 			return nil
 		}
@@ -171,10 +171,8 @@ func (q *ShardQueue) foreach() {
 			q.foreach()
 			return
 		}
-		// if state is closing, change it to closed (unless an Add is still in progress)
-		if atomic.LoadInt32(&q.adding) == 0 {
-			atomic.CompareAndSwapInt32(&q.state, closing, closed)
-		}
+		// Close itself notices that no Add, no trigger and no worker is left: the trigger count
+		// read above may be stale by now, so the state must not be changed to closed here.
 	})
 }
 
